@@ -241,6 +241,7 @@ func C13(c *run.Ctx) {
 	c13RequestObjects(c)
 	c13KeyRotation(c)
 	c13PARPlacement(c)
+	c13ClientGone(c)
 }
 
 // c13Placement: access and ID tokens never in the query of a Location; state echoed unchanged.
@@ -507,5 +508,29 @@ func c13PARPlacement(c *run.Ctx) {
 			c.Case(fmt.Sprintf("par-placement rt=%q mode=%s kind=%s err=%s token-in-query=%v", rt, mode, out.Kind, out.ErrName, out.Query.Get("access_token") != "" || out.Query.Get("id_token") != ""))
 			c13Placement(c, out, "par-state-0123456789", true, []string{"PAR " + f.Encode(), out.Location}, "par-"+rt+"-"+mode)
 		}
+	}
+}
+
+// c13ClientGone: "accepts a request only if the client exists" also holds for a request that was pushed while the client
+// existed and is presented after the client was deleted.
+func c13ClientGone(c *run.Ctx) {
+	if !c.Mine(4) && c.NShards > 4 {
+		return
+	}
+	w := world.New(world.Opts{})
+	w.AddClient(world.ClientSpec{ID: "c13-gone", Secret: "s13g", RedirectURIs: []string{"https://gone.example.org/cb"}, GrantTypes: world.AllGrants, ResponseTypes: world.AllResponseTypes, Scopes: []string{"fosite"}})
+	p := w.PAR(url.Values{"response_type": {"code"}, "scope": {"fosite"}, "state": {"state-0123456789"}, "redirect_uri": {"https://gone.example.org/cb"}}, world.Basic("c13-gone", "s13g"))
+	if p.Err != nil {
+		c.Inconcl("c13 client gone: push failed: " + world.ErrDetail(p.Err))
+		return
+	}
+	delete(w.Mem.Clients, "c13-gone")
+	az := w.Authorize(url.Values{"client_id": {"c13-gone"}, "request_uri": {p.S("request_uri")}}, world.Consent{})
+	got := az.Err == nil && az.Params.Get("code") != ""
+	c.Case(fmt.Sprintf("client-deleted-after-push accepted=%v err=%s", got, az.ErrName))
+	c.Count("c13_rule_broken_refused", 1)
+	if got {
+		c.Violate(run.Violation{Kind: "invalid-request-accepted", Key: "invalid-request-accepted client-does-not-exist (deleted after its request was pushed)",
+			Detail: "an authorization code was issued for a client that no longer exists", History: []string{"push by c13-gone", "client deleted", "authorize with the request_uri => " + az.Location}})
 	}
 }
